@@ -980,6 +980,100 @@ def check_rich(ctx, rep, U2, U3):
     rep.coverage['rich_text_signatures_unhashable'] = unhashable
     return n
 
+
+# ---------------------------------------------------------------- (g) sequences in one process
+# The same parameter text built again and again in one process, with return
+# annotations that are equal but not identical (1 == True == 1.0, 0 == False ==
+# 0.0 == -0.0, and their texts) and with changing option flags: every result
+# must carry the return annotation it was given (type and repr), whatever was
+# built before.
+SEQ_RETS = [1, True, 1.0, 0, False, 0.0, -0.0, '1', 'True', '0.0', None]
+
+
+def ret_expected(r):
+    """the object the generated code's return annotation evaluates to"""
+    if r is None:
+        return P.empty
+    return eval(r) if isinstance(r, str) else r
+
+
+def same_object_value(a, b):
+    return type(a) is type(b) and repr(a) == repr(b)
+
+
+def decide_sequence(ps, steps):
+    """steps: [(opts, ret), ...] applied in order to the same text.  Returns the
+    first failure (a string) or None."""
+    exp0 = expected_sig(ps)
+    body, _ = split_text(exp0)
+    history = []
+    for opts, r in steps:
+        o = dict(zip(OPT_NAMES, opts))
+        want = ret_expected(r)
+        args = (body,) if r is None else (body, r)
+        tag = 's(%r%s%s)' % (body, '' if r is None else ', %r' % (r,),
+                             ''.join(', %s=True' % k for k, v in o.items() if v))
+        after = ' after %s' % ', '.join(history[-3:]) if history else ''
+        history.append(tag)
+        try:
+            with warnings.catch_warnings():
+                warnings.simplefilter('ignore')
+                sig = support.s(*args, **o)
+                fn = support.f(*args, **o)
+                fsig = specifiers.signature(fn)
+        except Exception as e:  # noqa: BLE001
+            return '%s%s raised %s: %s' % (tag, after, type(e).__name__, e)
+        for what, got in (('s', sig), ('signature(f', fsig)):
+            if not same_object_value(got.return_annotation, want):
+                return '%s%s%s has return annotation %r, the one given is %r' % (
+                    what, tag[1:], after, got.return_annotation, want)
+            gd, ed = describe(got)[0], describe(exp0)[0]
+            if (ko_canon(gd) if opts[2] else gd) != (ko_canon(ed) if opts[2] else ed):
+                return '%s%s%s has parameters %s, expected %s' % (what, tag[1:], after, got, exp0)
+        # the round trip of this result
+        try:
+            with warnings.catch_warnings():
+                warnings.simplefilter('ignore')
+                back = specifiers.signature(support.func_from_sig(sig))
+                b2, r2 = split_text(sig)
+                again = support.s(b2, r2)
+        except Exception as e:  # noqa: BLE001
+            return 'round trip of %s%s raised %s: %s' % (tag, after, type(e).__name__, e)
+        for what, got in (('signature(func_from_sig(%s))' % tag, back), ('s(str(%s))' % tag, again)):
+            if got != sig or not same_object_value(got.return_annotation, sig.return_annotation):
+                return '%s%s is %s, expected %s' % (what, after, got, sig)
+    return None
+
+
+def check_sequences(ctx, rep, metas):
+    rng = ctx.rng('sequences')
+    pool = [m for m in metas if m[1] is None]
+    sample = rng.sample(pool, min(len(pool), 40 if ctx.quick else 200))
+    sample.insert(0, ([], None))
+    n = 0
+    for ps, _ in sample:
+        combos = opt_combos(ps)
+        # one spelling at a time, every return annotation in a random order ...
+        for opts in combos:
+            rets = list(SEQ_RETS)
+            rng.shuffle(rets)
+            steps = [(opts, r) for r in rets]
+            n += len(steps)
+            rep.distinct.add(('seq', tuple(ps), opts))
+            what = decide_sequence(ps, steps)
+            if what:
+                rep.violation('C20:sequence', what, {'kind': 'sequence', 'sig': ps,
+                                                     'steps': [[list(o), r] for o, r in steps]})
+        # ... and the spellings interleaved
+        steps = [(rng.choice(combos), rng.choice(SEQ_RETS)) for _ in range(16)]
+        n += len(steps)
+        what = decide_sequence(ps, steps)
+        if what:
+            rep.violation('C20:sequence', what, {'kind': 'sequence', 'sig': ps,
+                                                 'steps': [[list(o), r] for o, r in steps]})
+    rep.coverage['sequence_steps'] = n
+    return n
+
 # ---------------------------------------------------------------- universes
 def gen_sigs(ctx):
     rng = ctx.rng('sigs')
@@ -1034,7 +1128,8 @@ def run(ctx, rep):
                 if what:
                     rep.violation('C20:chevron', what, {'kind': 'chevron', 'sig': ps, 'ret': ret, 'op': op})
     n5 = check_rich(ctx, rep, U2, U3)
-    rep.evaluations = n1 + n2 + n3 + n4 + n5
+    n6 = check_sequences(ctx, rep, metas)
+    rep.evaluations = n1 + n2 + n3 + n4 + n5 + n6
     # the recorded defect of func_from_sig (return annotations) is reported last
     for key, what, data in DEFERRED:
         rep.violation(key, what, data)
@@ -1089,6 +1184,8 @@ def replay(ctx, data):
         return decide_func_from_sig(_ps(r['sig']), r['ret'])
     if kind == 'chevron':
         return decide_chevron(_ps(r['sig']), r['ret'], r['op'])
+    if kind == 'sequence':
+        return decide_sequence(_ps(r['sig']), [(tuple(o), x) for o, x in r['steps']])
     if kind == 'rich':
         calls = [(list(a), [tuple(kv) for kv in k]) for a, k in r['calls']]
         res = decide_rich([list(x) for x in r['sig']], r['ret'], calls)
